@@ -221,6 +221,20 @@ func (k *K) Settle() {
 	for _, inv := range k.invs {
 		inv()
 	}
+	if qTrace {
+		var parts []string
+		for _, g := range k.Census() {
+			f := g.TopWith("martian")
+			if f == "" {
+				f = g.TopWith("simnet")
+			}
+			if f == "" && len(g.Frames) > 0 {
+				f = g.Frames[0]
+			}
+			parts = append(parts, fmt.Sprintf("g%d[%s]%s", g.ID, g.State, f))
+		}
+		k.Logf("DBG settle: %s", strings.Join(parts, " "))
+	}
 }
 
 // AddInvariant registers a check evaluated at every stable quiescence (after the settle hooks
@@ -560,6 +574,7 @@ func (k *K) ReleaseAll() {
 }
 
 var lyTrace = os.Getenv("VERIF_LYTRACE") != ""
+var qTrace = os.Getenv("VERIF_QTRACE") != ""
 
 // LockYield returns a hook for the yield points that seam R8 puts before mutex acquisitions: it
 // parks the calling goroutine at a few acquisitions chosen by the schedule tape (by their
